@@ -125,6 +125,15 @@ func gen(t *rapid.T) pairsim.Scenario {
 		}
 		sc.Ops = append(sc.Ops, op)
 	}
+	// the responder processes every message on a goroutine of its own in a quarter of the datagram
+	// scenarios (handlers then do not sleep: a duplicate waiting on the per-ID mutex behind a sleeping
+	// handler is not a durable block for the virtual clock)
+	if sc.Transport == "udp" && rapid.IntRange(0, 3).Draw(t, "gopool") == 0 {
+		sc.Srv.GoPool = true
+		for i := range sc.Ops {
+			sc.Ops[i].SlowMs = 0
+		}
+	}
 	return sc
 }
 
